@@ -162,9 +162,9 @@ func (c09) Case(c *core.Ctx) {
 	cfg.KeyPrefix = []string{"#", "#", "%"}[r.Intn(3)]
 	textK := cfg.textK()
 	arbitrary := r.Intn(4) == 0
-	keys := []string{"a", "b", "c", "k", "a", "b", "(0,10]", "r]"}
+	keys := []string{"a", "b", "c", "k", "a", "b", "(0,10]", "r]", "#attr", "0"}
 	if arbitrary {
-		keys = append(keys, "", ".", "a.b", "[0]", "*", "a[1]", " ", "é")
+		keys = append(keys, "", ".", "a.b", "[0]", "*", "a[1]", " ", "é", "#seq", "#comment", "1", "k ")
 	}
 	var gen func(depth int) interface{}
 	scalar := func() interface{} {
